@@ -562,6 +562,30 @@ pub fn eval_case(prop: &str, case: &Case, oracles: &[Oracle], st: &mut Stats, de
           }
         }
         let _ = &known_names;
+        // probes taken while a further source was being subscribed (a retry's next attempt, concat's
+        // next source, a flat_map inner, a fallback): whatever the reference has cancelled by then must
+        // read is_subscribed()==false - an emission at that moment would otherwise still see `true`
+        if r.sub_snaps.len() == real.sub_snaps.len() && r.sub_snaps.iter().zip(real.sub_snaps.iter()).all(|(a, b)| a.0 == b.0 && a.1 == b.1) {
+          'snaps: for (k, (rs, qs)) in r.sub_snaps.iter().zip(real.sub_snaps.iter()).enumerate() {
+            for (si, insts) in rs.2.iter().enumerate() {
+              for (ii, alive) in insts.iter().enumerate() {
+                let lazy = rs.3.get(si).and_then(|s| s.get(ii)).cloned().unwrap_or(false);
+                let real_alive = qs.2.get(si).and_then(|s| s.get(ii)).cloned();
+                if !alive && !lazy && real_alive == Some(true) {
+                  st.add_finding(
+                    format!("{}/upstream-not-torn-down-when-the-next-source-is-subscribed", locus(p)),
+                    format!(
+                      "while source s{} was being subscribed (its subscription #{}, the {}. source subscription of the run) source s{} (subscription #{}) still read is_subscribed()==true although nothing needs it any more | real: {} | reference: {}",
+                      rs.0, rs.1, k + 1, si, ii, real.show(), r.show()
+                    ),
+                    case.show(),
+                  );
+                  break 'snaps;
+                }
+              }
+            }
+          }
+        }
         'outer: for step in 0..case.acts.len() {
           for (si, insts) in r.src_alive[step].iter().enumerate() {
             for (ii, alive) in insts.iter().enumerate() {
